@@ -87,6 +87,8 @@ type ScriptConn struct {
 	// what the peer receives is then not what was serialized for it.
 	mutBefore, mutAfter []byte
 	wdeadline           time.Time
+	// Addr, if set, is the remote address reported (several connections may report the same one)
+	Addr string
 	// CloseErr, if set, is what Close returns although the connection is closed all the same - as tls.Conn.Close does
 	// when the close_notify alert cannot be sent any more.
 	CloseErr  error
@@ -281,8 +283,13 @@ func (c *ScriptConn) Close() error {
 	return c.CloseErr
 }
 
-func (c *ScriptConn) LocalAddr() net.Addr  { return addr("server") }
-func (c *ScriptConn) RemoteAddr() net.Addr { return addr(fmt.Sprintf("client-%d", c.ID)) }
+func (c *ScriptConn) LocalAddr() net.Addr { return addr("server") }
+func (c *ScriptConn) RemoteAddr() net.Addr {
+	if c.Addr != "" {
+		return addr(c.Addr) // an address is not a connection identity: net.Pipe connections all report "pipe"
+	}
+	return addr(fmt.Sprintf("client-%d", c.ID))
+}
 
 // Write deadlines are honoured as a net.Conn does: a write that is still blocked at its deadline returns after a
 // partial write with a timeout error, and the connection stays usable. (Read deadlines are not modelled.)
@@ -506,6 +513,8 @@ type Multi struct {
 	out     []*Outcome
 	Timeout time.Duration
 	Log     *Log
+	// SharedAddr, if set, is the remote address every connection opened from now on reports
+	SharedAddr string
 }
 
 // NewMulti opens n gated connections, each served by its own goroutine, and waits until all are idle.
@@ -523,6 +532,7 @@ func NewMulti(srv Server, n int, timeout time.Duration) (*Multi, error) {
 func (m *Multi) Open() error {
 	c := NewGated(len(m.Conns))
 	c.Log = m.Log
+	c.Addr = m.SharedAddr
 	i := len(m.Conns)
 	m.Conns = append(m.Conns, c)
 	ended := make(chan struct{})
